@@ -372,6 +372,13 @@ def rule_c15(an, res):
                         continue
                     draws = seg.effs('RNG_DRAW')
                     val = ' '.join(seg.valuation())
+                    for e in seg.effs('OTHER_CALL'):
+                        from symex import root_of
+                        r0 = root_of(e.recv)
+                        if r0[0] == 'field' and r0[1] in (getattr(roles, 'rng', None) or []):
+                            res.ob('R-RNG-ENGINE', ok=False)
+                            V(res, prop, 'R-RNG-ENGINE', cm, where_of(m, seg), 'random engine manipulated outside the draw: %s()' % e.name, e.site,
+                              'path [%s]: %s.%s(...) - re-seeding / discarding changes which residents can be chosen' % (val, r0[1], e.name))
                     if k != 'INSERT' or seg.cond('PRESENT') is not False or seg.cond('FULL') is not True:
                         ok = not draws
                         if draws:
